@@ -757,6 +757,16 @@ func (e *Env) evalCall(n ECall) tv {
 			return e.fail("typeis: unknown type %q", name)
 		}
 		return tv{Sc{T: Eq(iv.Typ, IntLit(int64(code)))}, boolT}
+	case "ptr":
+		// ptr(x, "*pkg.T"): view the raw reference x as a pointer of the given type
+		v := e.eval(n.Args[0])
+		name := n.Args[1].(EStr).V
+		t := c.eng.namedType(strings.TrimPrefix(name, "*"))
+		sc, ok := v.v.(Sc)
+		if t == nil || !ok {
+			return e.fail("ptr(): bad arguments")
+		}
+		return tv{Sc{T: sc.T}, types.NewPointer(t)}
 	case "as":
 		// as(x, "*pkg.T"): the pointer stored in interface value x (meaningful when typeis(x, T))
 		v := e.eval(n.Args[0])
